@@ -368,6 +368,10 @@ func (vfs *OrefaFS) Link(oldname, newname string) error {
 		return &os.LinkError{Op: op, Old: oldname, New: newname, Err: err}
 	}
 
+	if !nParent.mode.IsDir() {
+		return &os.LinkError{Op: op, Old: oldname, New: newname, Err: vfs.err.NotADirectory}
+	}
+
 	oChild.mu.Lock()
 	defer oChild.mu.Unlock()
 
@@ -860,21 +864,21 @@ func (vfs *OrefaFS) Rename(oldname, newname string) error {
 		return &os.LinkError{Op: op, Old: oldname, New: newname, Err: vfs.err.InvalidArgument}
 	}
 
-	if strings.HasPrefix(nAbsPath, oAbsPath+string(vfs.PathSeparator())) {
-		// A file or directory can't be moved below itself.
-		err := vfs.err.InvalidArgument
-		if !oChild.mode.IsDir() {
-			err = vfs.err.NotADirectory
-		}
-
-		return &os.LinkError{Op: op, Old: oldname, New: newname, Err: err}
-	}
-
 	if nChildOk && nChild.mode.IsDir() && !(nChild == oChild && oldname != newname) {
 		// an existing directory is never replaced (see os.Rename).
 		err := vfs.err.FileExists
 		if vfs.OSType() == avfs.OsWindows {
 			err = avfs.ErrWinAccessDenied
+		}
+
+		return &os.LinkError{Op: op, Old: oldname, New: newname, Err: err}
+	}
+
+	if strings.HasPrefix(nAbsPath, oAbsPath+string(vfs.PathSeparator())) {
+		// A file or directory can't be moved below itself.
+		err := vfs.err.InvalidArgument
+		if !oChild.mode.IsDir() {
+			err = vfs.err.NotADirectory
 		}
 
 		return &os.LinkError{Op: op, Old: oldname, New: newname, Err: err}
